@@ -162,6 +162,83 @@ fn modes_part<'a>(tier: Tier, sys: &'a Sys) -> Part<'a, Sys> {
     }
 }
 
+/// Long buffers: numbered logical lines, every third one wrapping over three rows, so that
+/// the buffer holds every row count from a handful up to beyond 2^13 - each count around a
+/// power of two, and every count up to 300; then a widening, a narrowing and a height
+/// change, each judged by the same relational oracle.
+fn long_buffers(ctx: &Ctx, rep: &mut Report) {
+    use rayon::prelude::*;
+    let mut counts: Vec<usize> = (1..=ctx.tier.pick(300usize, 1500usize)).collect();
+    for p in 9..=ctx.tier.pick(13u32, 15u32) {
+        let b = 1usize << p;
+        // (each count adds 1 or 3 rows: a window of 12 counts puts a row of every kind on the boundary)
+        for n in b / 2..b / 2 + 12 {
+            counts.push(n);
+        }
+        for n in (b * 3 / 5).saturating_sub(6)..b * 3 / 5 + 6 {
+            counts.push(n);
+        }
+        for n in b.saturating_sub(12)..b + 4 {
+            counts.push(n);
+        }
+    }
+    counts.sort();
+    counts.dedup();
+    let bad: Vec<(usize, String)> = counts
+        .par_iter()
+        .filter_map(|&n| {
+            let r = crate::engine::guarded(|| {
+                let (cols, rows) = (20usize, 10usize);
+                let mut text = String::new();
+                for i in 0..n {
+                    if i % 3 == 0 {
+                        text.push_str(&format!("{:05} abcdefghijklmnopqrstuvwxyzABCDEFGHIJKLMNOPQRSTUVW\r\n", i));
+                    } else {
+                        text.push_str(&format!("{:05}\r\n", i));
+                    }
+                }
+                text.push_str("end");
+                for (c2, r2) in [(33usize, 10usize), (7, 10), (20, 4), (40, 3)] {
+                    let mut vt = build_vt(cols, rows, None);
+                    let _ = vt.feed_str(&text);
+                    let mut out = Out::default();
+                    let t = format!("{} lines at 20x10", n);
+                    if !resize_checked(&mut vt, c2, r2, &mut out, &t) {
+                        let v = &out.violations[0];
+                        let d: String = v.detail.chars().take(300).collect();
+                        return Some(format!("{}: {}", v.oracle, d));
+                    }
+                    // and back
+                    if !resize_checked(&mut vt, cols, rows, &mut out, &t) {
+                        let v = &out.violations[0];
+                        let d: String = v.detail.chars().take(300).collect();
+                        return Some(format!("(back to 20x10) {}: {}", v.oracle, d));
+                    }
+                }
+                None
+            });
+            match r {
+                Ok(None) => None,
+                Ok(Some(d)) => Some((n, d)),
+                Err(p) => Some((n, format!("panic: {}", p))),
+            }
+        })
+        .collect();
+    let runs = counts.len() as u64 * 8;
+    rep.evaluations += runs;
+    rep.traces_validated += runs;
+    rep.transitions += runs;
+    rep.distinct_nontrivial += counts.len() as u64;
+    rep.parts.push(serde_json::json!({"part":"long-buffers","line_counts":counts.len(),"max_lines":counts.iter().max(),"resizes":runs,"violating":bad.len()}));
+    println!("part long-buffers: {} line counts up to {}, {} violating", counts.len(), counts.iter().max().unwrap_or(&0), bad.len());
+    for (n, d) in bad.iter().take(3) {
+        emit_violation(ctx, rep, "C10", serde_json::json!({"part":"long-buffers","lines":n,"oracle":"resize-relation","observed":d}));
+    }
+    if bad.len() > 3 {
+        rep.violations += bad.len() as u64 - 3;
+    }
+}
+
 fn make_sys(_tier: Tier) -> Sys {
     Sys {
         sizes: S4.to_vec(),
@@ -176,11 +253,12 @@ pub fn run(ctx: &Ctx) -> Report {
     run_part(ctx, &mut rep, &p);
     let sys1 = Sys { sizes: S4.to_vec(), chain: 1 };
     run_part(ctx, &mut rep, &modes_part(ctx.tier, &sys1));
+    long_buffers(ctx, &mut rep);
     let n = rep.counters.get("seed-bfs+resize-chains.resizes_checked").copied().unwrap_or(0)
         + rep.counters.get("modes-and-region-dont-matter.resizes_checked").copied().unwrap_or(0);
     rep.evaluations += n;
     rep.traces_validated = n;
-    rep.rule = "seed states = all states reachable by the editing alphabet (texts incl. a double-width and a zero-width character, CRLF, cursor moves, EL/ECH/DCH/ICH/IL/DL/ED1, SGR, RI, DECSC) up to the depth bound on unlimited-scrollback primary screens; from every seed every chain of <=2 resizes over the 10 sizes 1x1..4x3; each single resize is judged by the relational oracle on logical lines (rows joined on wrap marks, cells incl. pens, trailing default blanks ignored); non-trivial = resizes of a non-empty buffer; second part: the same from states with scroll regions, origin mode, hidden cursor, auto-wrap off, insert / new-line / cursor-key modes and a drawing charset (14 ops, 3x3, every single resize)".into();
+    rep.rule = "seed states = all states reachable by the editing alphabet (texts incl. a double-width and a zero-width character, CRLF, cursor moves, EL/ECH/DCH/ICH/IL/DL/ED1, SGR, RI, DECSC) up to the depth bound on unlimited-scrollback primary screens; from every seed every chain of <=2 resizes over the 10 sizes 1x1..4x3; each single resize is judged by the relational oracle on logical lines (rows joined on wrap marks, cells incl. pens, trailing default blanks ignored); non-trivial = resizes of a non-empty buffer; second part: the same from states with scroll regions, origin mode, hidden cursor, auto-wrap off, insert / new-line / cursor-key modes and a drawing charset (14 ops, 3x3, every single resize); third part: buffers of 1..300 lines (thorough 1500) and around every power of two up to 2^13 (2^15) rows, widened, narrowed, shortened and back".into();
     rep.assumptions = vec![
         "primary screen, unlimited scrollback (as the statement requires)".into(),
         "'on a character of the text' = cursor offset inside the trimmed logical line".into(),
@@ -191,6 +269,12 @@ pub fn run(ctx: &Ctx) -> Report {
 pub fn replay(ctx: &Ctx, v: &Value) -> bool {
     let tier = if v["tier"] == "thorough" { Tier::Thorough } else { Tier::Quick };
     let sys = make_sys(tier);
+    if v["part"] == "long-buffers" {
+        let mut rep = Report::new();
+        let c2 = Ctx { id: ctx.id.clone(), tier: Tier::Thorough, seed: 0, start: ctx.start, known: ctx.known.clone(), replay_dir: ctx.replay_dir.clone() };
+        long_buffers(&c2, &mut rep);
+        return rep.violations > 0;
+    }
     if v["part"] == "modes-and-region-dont-matter" {
         let sys1 = Sys { sizes: S4.to_vec(), chain: 1 };
         return replay_part(ctx, &modes_part(tier, &sys1), v);
